@@ -19,7 +19,19 @@ func Parse(ctx *Context, p Parser) (Node, error) {
 	var err Error
 	var node Node
 
-	if node, _, err = p.Parse(ctx, data.EmptyIntMap, ctx.Reader().Pos(0)); err != nil {
+	node, _, err = p.Parse(ctx, data.EmptyIntMap, ctx.Reader().Pos(0))
+
+	// A parser can fail without returning an error (e.g. Any/Choice drop the
+	// not found errors of their alternatives, a curtailed left-recursive call
+	// has no error at all). This is still a failed parse: report the furthest
+	// error the context knows about.
+	if node == nil && err == nil {
+		if err = ctx.Error(); err == nil {
+			err = NewError(ctx.Reader().Pos(0), NotFoundError("a valid input"))
+		}
+	}
+
+	if err != nil {
 		if !IsWhitespaceError(err) {
 			if ctxErr := ctx.Error(); ctxErr != nil && ctxErr.Pos() > err.Pos() {
 				err = ctxErr
